@@ -134,9 +134,13 @@ def judge_base(text: str, value: float, base: int, places: int, twos: bool):
     f = {"fmt": "base", "twos": bool(twos), "negative": x < 0, "integer_value": x == x.to_integral_value()}
     try:
         if twos and max(admissible) < 0:
+            # a two's complement of width w >= 32 has its top bit set (the sign) and reads as val - 2**w; sign extension
+            # only adds leading ones, so for every correct rendering w is the bit length of the digits read as a number
             val = int(text, base)
-            if not any(val == n % (1 << w) for n in admissible for w in range(32, 200)):
-                out.append(("magnitude", {**f, "what": "twos-complement"}, {"text": text, "value": repr(value), "base": base}))
+            w = val.bit_length()
+            if w < 32 or (val - (1 << w)) not in admissible:
+                why = "sign-bit-lost" if any(val == n % (1 << w2) for n in admissible for w2 in range(32, 200)) else "other"
+                out.append(("magnitude", {**f, "what": "twos-complement", "why": why}, {"text": text, "value": repr(value), "base": base, "reads_as": val - (1 << w)}))
         else:
             neg = text.startswith("-")
             body = text[1:] if neg else text
